@@ -461,6 +461,14 @@ func (r *Registry) tagOf(t types.Type) string {
 	return fmt.Sprintf("%d", r.tags[k])
 }
 
+func (r *Registry) tagOfName(k string) string {
+	if _, ok := r.tags[k]; !ok {
+		r.tags[k] = len(r.tags) + 1
+		r.tagNames = append(r.tagNames, k)
+	}
+	return fmt.Sprintf("%d", r.tags[k])
+}
+
 func (r *Registry) dyn(ref string) string {
 	r.declare("dyn", []string{"Int"}, "Int")
 	return "(dyn " + ref + ")"
